@@ -262,12 +262,15 @@ class HD:
             xprv, xpub
         """
         (
-            k_derived,
-            c_derived,
+            _,
             depth,
             parent_key_fingerprint,
             child_no,
-        ) = derive_from_path(path, self.extended_master_key)
+            c_derived,
+            k_derived,
+        ) = bip32.deserialized_extended_key(
+            derive_from_path(path, self.root_xprv.encode("ascii"))
+        )
         xprv = bip43.serialized_extended_key(
             k_derived,
             c_derived,
